@@ -691,7 +691,7 @@ VMLoop:
 			// save current sp to come back to same position
 			handler.sp = vm.sp
 			// remove current error if any
-			vm.curFrame.errHandlers.err = nil
+			handler.err = nil
 			// set ip to finally's position
 			vm.ip = pos - 1
 		case OpUnary:
@@ -830,9 +830,9 @@ func (vm *VM) xOpSetupCatch() {
 		hdl := errHandlers.last()
 		hdl.catch = 0
 
-		if errHandlers.err != nil {
-			value = errHandlers.err
-			errHandlers.err = nil
+		if hdl.err != nil {
+			value = hdl.err
+			hdl.err = nil
 		}
 	}
 
@@ -859,9 +859,10 @@ func (vm *VM) xOpThrow() error {
 	case 0: // system
 		errHandlers := vm.curFrame.errHandlers
 		if errHandlers.hasError() {
+			pending := errHandlers.last().err
 			errHandlers.pop()
 			// do not put position info to error for re-throw after finally.
-			if err := vm.throw(errHandlers.err, true); err != nil {
+			if err := vm.throw(pending, true); err != nil {
 				return err
 			}
 		} else if pos := errHandlers.hasReturnTo(); pos > 0 {
@@ -956,8 +957,8 @@ func (vm *VM) throw(err *RuntimeError, noTrace bool) error {
 }
 
 func (vm *VM) handleThrownError(frame *frame, err *RuntimeError) error {
-	frame.errHandlers.err = err
 	handler := frame.errHandlers.last()
+	handler.err = err
 
 	// if we have catch>0 goto catch else follow finally, one of them is set
 	// because the caller skips the handlers that are already consumed.
@@ -1434,15 +1435,19 @@ type errHandler struct {
 	catch    int
 	finally  int
 	returnTo int
+	// err is the error which is caught by this handler and is not yet given
+	// to the catch block or re-thrown after the finally block.
+	err *RuntimeError
 }
 
 type errHandlers struct {
 	handlers []errHandler
-	err      *RuntimeError
 }
 
+// hasError reports whether the innermost handler holds a pending error.
 func (t *errHandlers) hasError() bool {
-	return t != nil && t.err != nil
+	handler := t.last()
+	return handler != nil && handler.err != nil
 }
 
 func (t *errHandlers) pop() bool {
